@@ -35,7 +35,14 @@ def run(rep, model, tier, seed, broken=()):
                  "name or containing a keyword as substring, EXPECTFAIL anywhere, sections nested in test bodies, "
                  "documented or not); projection = test/section/ctest entries with doc blanked; non-trivial = "
                  ">= 1 test entry; distinct by file bytes")
+    import oracle
+    oracle.c11_oracle(rep, model, core.rng_for(seed, 'C11', 'oracle'), 150 if tier == 'quick' else 4000,
+                      pinned=[['NAME', 'foo', 'COMMAND', 'foo', '--x', 'foo'], ['NAME', 't', 'COMMAND', 'echo', 'name', 'value']])
     pipe.crosscheck(rep)
 
 
-replay = std_replay
+def replay(obj):
+    if obj.get('oracle'):
+        import oracle
+        return oracle.replay(obj)
+    return std_replay(obj)
